@@ -60,6 +60,8 @@ THEOREMS = [
     "Opacus.C15.bn_default_groups_valid",
     "Opacus.C15.fixed_in_keeps_buffers_counterexample",
     "Opacus.C15.fix_kwargs_counterexample",
+    "Opacus.C15.replacement_keeps_mode",
+    "Opacus.C15.replacement_as_built",
 ]
 RULE = (
     "case = random module tree over the layer zoo (BatchNorm1d/2d/3d/SyncBatchNorm, InstanceNorm1d/2d/3d with any affine / "
